@@ -122,6 +122,7 @@ Record node := {
   n_pending : list (N * N);      (* pendingReplicated: index -> future id *)
   n_ro : list rop;               (* pendingReadOnly *)
   n_should_verify : bool;
+  n_cfg_fid : option N;          (* configurationResponseCh: the pending membership change's future *)
   n_hb_rounds : N;               (* operationManager.rounds *)
   n_lease : N;                   (* lease expiration (absolute) *)
   n_contact : N;                 (* lastContact (absolute) *)
@@ -142,7 +143,7 @@ Record node := {
 
 #[export] Instance eta_node : Settable _ := settable! Build_node
   <n_id; n_et; n_ld; n_pterm; n_pvote; n_term; n_vote; n_log; n_snaps; n_partial; n_open; n_role; n_commit; n_applied; n_lii; n_lit;
-   n_conf; n_cconf; n_leader; n_followers; n_pending; n_ro; n_should_verify; n_hb_rounds; n_lease; n_contact;
+   n_conf; n_cconf; n_leader; n_followers; n_pending; n_ro; n_should_verify; n_cfg_fid; n_hb_rounds; n_lease; n_contact;
    n_rounds; n_next_round; n_tasks; n_cv; n_iswait; n_fsm; n_snap_every; n_budget; n_frozen; n_out;
    n_results; n_applies>.
 #[export] Instance eta_conds : Settable _ := settable! Build_conds <cv_apply; cv_commit; cv_ro; cv_election; cv_snapshot>.
